@@ -283,3 +283,31 @@ pub fn run(check: &str, tier: &str, config: &str) -> Report {
     run_slices::<T1024>(&mut rep, check);
     rep
 }
+
+pub fn replay(v: &serde_json::Value) -> Option<bool> {
+    fn go<T: TF>(v: &serde_json::Value) -> Option<bool> {
+        if v["cipher"].as_str()? != T::NAME {
+            return None;
+        }
+        if v.get("blocks").is_some() {
+            return None; // slice-API cases: signature fallback
+        }
+        let key = vref::unhex(v["key"].as_str()?);
+        let block = vref::unhex(v["block"].as_str()?);
+        let tw = [v["tweak"][0].as_str()?.parse::<u64>().ok()?, v["tweak"][1].as_str()?.parse::<u64>().ok()?];
+        let we = vref::threefish::encrypt(&key, tw, &block);
+        let wd = vref::threefish::decrypt(&key, tw, &block);
+        println!("replay {} {}", v["check"], T::NAME);
+        println!("  expected enc {}..  dec {}..", vref::hex(&we[..16]), vref::hex(&wd[..16]));
+        match guarded(|| (T::enc(&key, tw, &block), T::dec(&key, tw, &block))) {
+            Err(p) => { println!("  observed PANIC {}", p); Some(false) }
+            Ok((e, d)) => {
+                println!("  observed enc {}..  dec {}..", vref::hex(&e[..16]), vref::hex(&d[..16]));
+                let rt = guarded(|| T::dec(&key, tw, &e) == block && T::enc(&key, tw, &d) == block).unwrap_or(false);
+                println!("  round trips: {}", rt);
+                Some(e == we && d == wd && rt)
+            }
+        }
+    }
+    go::<T256>(v).or_else(|| go::<T512>(v)).or_else(|| go::<T1024>(v))
+}
